@@ -69,6 +69,26 @@ thread_local! {
     static ME: Cell<Option<usize>> = const { Cell::new(None) };
 }
 
+/// Marks its simulated thread as finished when it is dropped. It is the FIRST thread-local with a
+/// destructor that a simulated thread registers, so it is destroyed LAST (thread-local
+/// destructors run in reverse registration order): whatever the thread's other thread-local
+/// destructors do (e.g. evaluate an expression during teardown) still runs under the scheduler.
+struct DoneGuard {
+    id: usize,
+    finished: Arc<AtomicUsize>,
+}
+
+impl Drop for DoneGuard {
+    fn drop(&mut self) {
+        yield_at(self.id, None, true, false);
+        self.finished.fetch_add(1, Ordering::Release);
+    }
+}
+
+thread_local! {
+    static DONE_GUARD: std::cell::RefCell<Option<DoneGuard>> = const { std::cell::RefCell::new(None) };
+}
+
 pub fn site_index(site: Site) -> usize {
     Site::ALL.iter().position(|s| *s == site).unwrap_or(0)
 }
@@ -497,6 +517,12 @@ pub fn simulate(cfg: SimConfig, bodies: Vec<Box<dyn FnOnce() + Send + 'static>>)
                     t[i] = tid;
                 }
             }
+            DONE_GUARD.with(|g| {
+                *g.borrow_mut() = Some(DoneGuard {
+                    id: i,
+                    finished: finished.clone(),
+                })
+            });
             wait_for_turn(i);
             if catch_unwind(AssertUnwindSafe(body)).is_err() {
                 panics
@@ -504,9 +530,8 @@ pub fn simulate(cfg: SimConfig, bodies: Vec<Box<dyn FnOnce() + Send + 'static>>)
                     .unwrap()
                     .push((i, verifsim::env::last_panic()));
             }
-            yield_at(i, None, true, false);
-            ME.with(|m| m.set(None));
-            finished.fetch_add(1, Ordering::Release);
+            // (the thread is marked finished by its DoneGuard, after its other thread-local
+            // destructors have run)
         }));
     }
     // start: the scheduler picks the first thread
